@@ -83,8 +83,14 @@ func c17Decoder(c *Ctx) {
 		}
 		sort.Strings(rs)
 		got := strings.Join(rs, " && ")
-		want1 := "((p0.offset + p1) <= len(p0.data)) && ((p0.offset + p1) >= 0)"
-		okSum = got == want1
+		// compared as relations, not as text: !(pos < 0) is pos >= 0, !(pos > len) is pos <= len, either operand order
+		var norm []string
+		for _, dc := range summary {
+			norm = append(norm, normRel(dc))
+		}
+		sort.Strings(norm)
+		norm = uniqS(norm)
+		okSum = strings.Join(norm, " && ") == "(p0.offset + p1) <= len(p0.data) && (p0.offset + p1) >= 0"
 		c.Check(okSum, "hasbytes-summary", "HasBytes returns nil iff", p.InstrPos(nilRet[0]), got, "HasBytes' nil return is not guarded exactly by 0 <= offset+size <= len(data): "+got)
 	} else {
 		c.Violate("hasbytes-summary", "HasBytes shape", p.Pos(hb.Pos()), "HasBytes is not a pure predicate with a single nil return")
@@ -95,12 +101,106 @@ func c17Decoder(c *Ctx) {
 			c.Ok("hasbytes-summary", fmt.Sprintf("HasBytes error return[%d]", i), p.InstrPos(r), "")
 		}
 	}
+	// --- guard wrappers: a method that calls HasBytes on its own (receiver, size), reports the outcome as bool/error,
+	// never moves the cursor, and (optionally) records the error on its failing outcome. Its "ok" outcome implies
+	// HasBytes' summary (imported through the dominating conditions of its ok return).
+	guards := map[*ssa.Function]*guardInfo{hb: {}}
+	wsum := map[*ssa.Function][]Cond{}
+	for _, fn := range p.FuncsIn(decRel) {
+		if fn == hb || fn.Parent() != nil || fn.Signature.Recv() == nil || NamedOf(fn.Signature.Recv().Type()) != dt || len(fn.Params) != 2 || fn.Signature.Results().Len() != 1 {
+			continue
+		}
+		rt := fn.Signature.Results().At(0).Type()
+		isBool := types.Identical(rt.Underlying(), types.Typ[types.Bool])
+		if !isBool && !IsErrorType(rt) {
+			continue
+		}
+		var hc *ssa.Call
+		n := 0
+		for _, call := range Calls(fn) {
+			if call.Common().StaticCallee() == hb {
+				hc, _ = call.(*ssa.Call)
+				n++
+			}
+		}
+		if hc == nil || n != 1 || hc.Call.Args[0] != ssa.Value(fn.Params[0]) || hc.Call.Args[1] != ssa.Value(fn.Params[1]) {
+			continue
+		}
+		movesCursor := false
+		for _, b := range fn.Blocks {
+			for _, in := range b.Instrs {
+				if st, ok := in.(*ssa.Store); ok {
+					if fa, ok := st.Addr.(*ssa.FieldAddr); ok && NamedOf(fa.X.Type()) == dt && (fa.Field == fidx["offset"] || fa.Field == fidx["data"]) {
+						movesCursor = true
+					}
+				}
+			}
+		}
+		if movesCursor {
+			continue
+		}
+		wellFormed, records := true, true
+		var okRet *ssa.Return
+		for _, r := range Returns(fn) {
+			v := RetVals(r)[0]
+			okOut := false
+			if isBool {
+				k, isC := v.(*ssa.Const)
+				if !isC || k.Value == nil {
+					wellFormed = false
+					continue
+				}
+				okOut = k.Value.String() == "true"
+			} else {
+				okOut = IsNilConst(v)
+			}
+			switch guardOutcome(hc, r) {
+			case 1:
+				if !okOut {
+					wellFormed = false // refuses although the bytes are there: harmless for bounds, but not a plain guard
+				}
+				if okOut && okRet == nil {
+					okRet = r
+				} else if okOut {
+					wellFormed = false
+				}
+			case -1:
+				if okOut {
+					wellFormed = false
+				}
+				rec := false
+				for _, b := range fn.Blocks {
+					for _, in := range b.Instrs {
+						if st, ok := in.(*ssa.Store); ok && guardOutcome(hc, st) == -1 && st.Block().Dominates(r.Block()) {
+							if fa, ok := st.Addr.(*ssa.FieldAddr); ok && fa.Field == fidx["lasterror"] && st.Val == ssa.Value(hc) {
+								rec = true
+							}
+						}
+					}
+				}
+				if !rec {
+					records = false
+				}
+			default:
+				wellFormed = false
+			}
+		}
+		if !wellFormed || okRet == nil {
+			continue
+		}
+		guards[fn] = &guardInfo{records: records}
+		wsum[fn] = DomConds(okRet)
+		c.Ok("hasbytes-summary", "guard wrapper "+fn.Name(), p.Pos(fn.Pos()), "reports HasBytes' outcome for its own (receiver, size), never moves the cursor"+map[bool]string{true: ", records the error when it fails", false: ""}[records])
+	}
 	offTyp := fmt.Sprintf("%s#%d", dt.String(), fidx["offset"])
 	newProver := func(fn *ssa.Function) *zone.Prover {
 		pr := zone.New(fn)
 		pr.FieldLower[offTyp] = 0
 		if okSum {
 			pr.Summaries[hb] = summary
+			for w, sm := range wsum {
+				pr.Summaries[w] = sm
+			}
 		}
 		return pr
 	}
@@ -160,12 +260,12 @@ func c17Decoder(c *Ctx) {
 	c.Floor("decoder-bounds", 12, "Byte, PeekByte, Int16, PeekInt16, Int32, Uint32, Copy")
 	// --- failing / success arms of the primitives
 	for _, fn := range methods {
-		if fn.Parent() != nil {
+		if fn.Parent() != nil || guards[fn] != nil {
 			continue
 		}
 		var hcall *ssa.Call
 		for _, call := range Calls(fn) {
-			if call.Common().StaticCallee() == hb {
+			if guards[call.Common().StaticCallee()] != nil {
 				hcall, _ = call.(*ssa.Call)
 			}
 		}
@@ -173,26 +273,9 @@ func c17Decoder(c *Ctx) {
 			continue
 		}
 		name := fn.Name()
-		failed := func(in ssa.Instruction) bool {
-			for _, dc := range DomConds(in) {
-				if b, ok := dc.V.(*ssa.BinOp); ok && b.X == ssa.Value(hcall) && IsNilConst(b.Y) {
-					if (b.Op == token.NEQ && dc.Pol) || (b.Op == token.EQL && !dc.Pol) {
-						return true
-					}
-				}
-			}
-			return false
-		}
-		succeeded := func(in ssa.Instruction) bool {
-			for _, dc := range DomConds(in) {
-				if b, ok := dc.V.(*ssa.BinOp); ok && b.X == ssa.Value(hcall) && IsNilConst(b.Y) {
-					if (b.Op == token.NEQ && !dc.Pol) || (b.Op == token.EQL && dc.Pol) {
-						return true
-					}
-				}
-			}
-			return false
-		}
+		ginfo := guards[hcall.Call.StaticCallee()]
+		failed := func(in ssa.Instruction) bool { return guardOutcome(hcall, in) == -1 }
+		succeeded := func(in ssa.Instruction) bool { return guardOutcome(hcall, in) == 1 }
 		// failing arm
 		nfail := 0
 		for _, r := range Returns(fn) {
@@ -215,6 +298,9 @@ func c17Decoder(c *Ctx) {
 						}
 					}
 				}
+			}
+			if ginfo.records {
+				stored = true // the guard wrapper itself records the error on its failing outcome (checked on the wrapper)
 			}
 			c.Check(zeroRet && stored, "decoder-fail-arm", name+" failing return", p.InstrPos(r), "records the error and returns the zero value", "on a read that does not fit, "+name+" does not both record HasBytes' error in lasterror and return the zero value")
 		}
@@ -262,7 +348,6 @@ func c17Decoder(c *Ctx) {
 		peek := strings.HasPrefix(name, "Peek")
 		_ = advAt
 		switch {
-		case name == "HasBytes":
 		case peek:
 			c.Check(adv == "0", "decoder-advance", name, p.Pos(fn.Pos()), "peek does not move the cursor", "a Peek primitive moves the cursor by "+adv)
 		default:
@@ -875,4 +960,84 @@ func c17Handler(c *Ctx) {
 			}
 		}
 	}
+}
+
+type guardInfo struct{ records bool }
+
+// guardOutcome: at instruction `at`, is the guard call known to have succeeded (1: nil error / true), failed (-1), or neither (0)?
+func guardOutcome(hcall *ssa.Call, at ssa.Instruction) int {
+	isBool := types.Identical(hcall.Type().Underlying(), types.Typ[types.Bool])
+	for _, dc := range DomConds(at) {
+		if isBool {
+			if atom, pol := condAtom(dc.V); atom == ssa.Value(hcall) {
+				if pol == dc.Pol {
+					return 1
+				}
+				return -1
+			}
+			continue
+		}
+		if b, ok := dc.V.(*ssa.BinOp); ok && b.X == ssa.Value(hcall) && IsNilConst(b.Y) {
+			if (b.Op == token.NEQ && dc.Pol) || (b.Op == token.EQL && !dc.Pol) {
+				return -1
+			}
+			if (b.Op == token.NEQ && !dc.Pol) || (b.Op == token.EQL && dc.Pol) {
+				return 1
+			}
+		}
+	}
+	return 0
+}
+
+// normRel renders an integer comparison with its polarity applied and the constant / len(...) operand on the right.
+func normRel(dc Cond) string {
+	b, ok := dc.V.(*ssa.BinOp)
+	if !ok {
+		s := Render(dc.V)
+		if !dc.Pol {
+			s = "!" + s
+		}
+		return s
+	}
+	op := b.Op
+	if !dc.Pol {
+		switch op {
+		case token.LSS:
+			op = token.GEQ
+		case token.LEQ:
+			op = token.GTR
+		case token.GTR:
+			op = token.LEQ
+		case token.GEQ:
+			op = token.LSS
+		case token.EQL:
+			op = token.NEQ
+		case token.NEQ:
+			op = token.EQL
+		}
+	}
+	l, r := Render(b.X), Render(b.Y)
+	_, lc := ConstInt(b.X)
+	if lc || strings.HasPrefix(l, "len(") {
+		l, r = r, l
+		switch op {
+		case token.LSS:
+			op = token.GTR
+		case token.LEQ:
+			op = token.GEQ
+		case token.GTR:
+			op = token.LSS
+		case token.GEQ:
+			op = token.LEQ
+		}
+	}
+	l = strings.TrimSuffix(strings.TrimPrefix(l, "("), ")")
+	if strings.Contains(l, " + ") {
+		parts := strings.SplitN(l, " + ", 2)
+		if parts[0] > parts[1] {
+			parts[0], parts[1] = parts[1], parts[0]
+		}
+		l = "(" + parts[0] + " + " + parts[1] + ")"
+	}
+	return l + " " + op.String() + " " + r
 }
